@@ -9,8 +9,10 @@ Graph::from_obj_store).  Vocabulary: `Fields` / `Table` (the value tree: the cal
 Lemmas/TableWriterDefs.lean; `Inv`, `RepLinks`, `RepTable`, `Fields.Ok` in Lemmas/TableWriter*.lean; `unfold`, `readBack`,
 `ObjWF`, `Tree` are C05's (Lemmas/GraphSer.lean).
 -/
-import FontVerif.Lemmas.TableWriter3
+import FontVerif.Lemmas.TableWriter4
+import FontVerif.Lemmas.FieldNested3
 import FontVerif.Props.C05
+import FontVerif.Props.C04
 set_option linter.unusedVariables false
 namespace FontVerif.C04C05
 open FontVerif FontVerif.Graph FontVerif.TableWriter
@@ -209,5 +211,192 @@ error and the theorem above has nothing to say -/
 theorem compile_fail_no_bytes (ids : Nat → Nat) (t : Table) (fresh fresh' : List Nat) (g' : Graph)
     (h : packObjects (makeGraph ids t) fresh = some (false, g', fresh')) : dumpTable ids t fresh = some none :=
   C05.dump_fail_no_bytes _ g' fresh fresh' h
+
+/-- **The positional form**: where the nested reader goes, the output holds the tables themselves.  If `dump_table`'s
+pipeline returns `out` for `t`, then `out` holds at offset 0 a byte-for-byte copy of the root table outside its non-null
+offset slots (the whole table lies inside `out`), every non-null slot holds the big-endian encoding, in its width, of a
+value `v` that fits the width, and at `position(parent) + adjustment + v` the same is true of the child, recursively
+(`TableAt` / `ReadsAs`, Lemmas/TableWriter4.lean). -/
+theorem compile_places_nested (ids : Nat → Nat) (hinj : Function.Injective ids) (t : Table) (hok : t.Ok)
+    (fresh : List Nat) (hnd : fresh.Nodup) (hfr : ∀ j, ids j ∉ fresh) (out : List Nat)
+    (h : dumpTable ids t fresh = some (some out)) : TableAt out 0 t.fields 0 :=
+  dumpTable_tableAt ids hinj t hok fresh hnd hfr out h
+
+/-! ### (4) the field DSL of C04 with real offsets -/
+
+section dsl
+open FontVerif.Field FontVerif.FieldNested
+
+/-- the owned value whose offset scalars are the offsets found in the output: `o` with the offset fields replaced by
+the entries of `vA` -/
+def patchObj (slots : Slots) (o : Field.Obj) (vA : View) : Field.Obj :=
+  vA.filter (fun e => (slotW slots e.1).isSome) ++ o
+
+theorem lookup_filter_slot (slots : Slots) (vA : View) (f : Nat) :
+    (vA.filter (fun e => (slotW slots e.1).isSome)).lookup f = if (slotW slots f).isSome then vA.lookup f else none := by
+  induction vA with
+  | nil => simp [List.lookup]
+  | cons e rest ih =>
+    obtain ⟨k, v⟩ := e
+    simp only [List.filter]
+    cases hk : (slotW slots k).isSome with
+    | true =>
+      simp only [List.lookup]
+      by_cases hf : f = k
+      · subst hf; simp [hk]
+      · have : (f == k) = false := by simpa using hf
+        simp only [this, ih]
+    | false =>
+      simp only [List.lookup]
+      by_cases hf : f = k
+      · subst hf; simp [hk, ih]
+      · have : (f == k) = false := by simpa using hf
+        simp only [this, ih]
+
+theorem patch_get_nonslot (slots : Slots) (o : Field.Obj) (vA : View) (f : Nat) (h : slotW slots f = none) :
+    (patchObj slots o vA).get f = o.get f := by
+  unfold patchObj Field.Obj.get
+  rw [List.lookup_append, lookup_filter_slot, h]
+  simp
+
+theorem patch_get_slot (slots : Slots) (o : Field.Obj) (vA : View) (f x : Nat) (h : slotW slots f ≠ none)
+    (hl : vA.lookup f = some (.num x)) : (patchObj slots o vA).get f = .num x := by
+  unfold patchObj Field.Obj.get
+  have : (slotW slots f).isSome = true := by
+    cases hs : slotW slots f with
+    | none => exact absurd hs h
+    | some _ => rfl
+  rw [List.lookup_append, lookup_filter_slot, this, if_pos rfl, hl]
+  simp
+
+/-- **`read_write` lifted to nested tables.**  Take a generated (writer program `ws`, reader layout `rs`) pair of C04
+(`compatU as ws rs`), declare which of its scalar `.field` statements are offsets (`slots`, checked against the program
+by `slotOK`), and a value of it: the scalars / arrays `o` and, for every offset field, the child subtable or null
+(`kids`).  `emitN` is its `write_into` on the `TableWriter` — offset statements call `write_offset` / write a null — and
+`fs` the resulting value tree.  Wherever the compiled output `out` holds that table (`TableAt out hd fs 0` — at 0 for the
+root by `compile_places_nested`, and at the position this very theorem gives for a child), the generated reader run on
+`out` at `hd` (`FontRead::read(data.split_off(hd))`)
+* returns for every field that is not an offset exactly what was written (`AgreeOff`: scalars, constants, counts,
+  arrays, version-gated fields present exactly when the written version says so) and consumes exactly the table's bytes;
+* for every offset field that is present: a null child reads 0; for a non-null child `c`, `resolve` — the child's data
+  starts at `hd` + the offset read — lands on the child table: `TableAt out (hd + offset) c 0`, so the child's own reader
+  (this theorem again, if it is a DSL table) reads the child that was written.
+Proved from `read_write_args` (C04) applied to the owned value whose offset scalars are the offsets the packer stored
+(`patchObj`), and the positional read-back of C05 + the writer bridge.  Hypotheses: the hand-written `compute_*` fields do
+not depend on offset VALUES (`hext`); the pair's named count/length assumptions hold for the value whatever its offset
+scalars are (`hassume`; vacuous for the 203 unconditional pairs); the table is below 4 GiB. -/
+theorem nested_read_write (ext : Ext) (as : List Assume) (ws : List WF) (rs : List RF) (o : Field.Obj)
+    (slots : Slots) (kids : Kids) (args : View) (out : List Nat) (hd : Nat) (fs : Fields) (vN : View)
+    (hc : compatU as ws rs = true) (hs : slotOK slots ws = true)
+    (he : emitN ext o slots kids ws args = some (fs, vN))
+    (hext : ∀ O' : Field.Obj, (∀ f, slotW slots f = none → O'.get f = o.get f) → ∀ k, ext k O' = ext k o)
+    (hassume : ∀ (O' : Field.Obj) (view' : View), (∀ f, slotW slots f = none → O'.get f = o.get f) →
+      AgreeOff slots vN view' → ∀ x ∈ as, x.holds O' view')
+    (hat : TableAt out hd fs 0) (hsmall : lenN fs < U32)
+    (hr : usesRest rs = true → hd + lenN fs = out.length) :
+    ∃ view', parse rs args (out.drop hd) = some (view', out.drop (hd + lenN fs)) ∧ AgreeOff slots vN view' ∧
+      KidsAt slots kids out hd ws view' := by
+  have hwf := C04.compatAux_wfW as ws rs [] hc
+  have hsimple := emitN_simple ext o slots kids ws args fs vN he hs
+  obtain ⟨hseg, hin⟩ := segAgrees_of_tableAt out hd fs hsimple hsmall hat
+  obtain ⟨vA, hrun, hag, hkids⟩ := emitN_emitAt ext o slots kids out hd ws [] args args 0 fs vN he hwf hs
+    (AgreeOff.refl slots args) hseg hat.2 (by omega)
+  simp only [List.drop_zero] at hrun
+  have hO : ∀ f, slotW slots f = none → (patchObj slots o vA).get f = o.get f :=
+    fun f hf => patch_get_nonslot slots o vA f hf
+  have hemit := emitAt_emit ext o (patchObj slots o vA) slots (out.drop hd) hO (hext _ hO) ws [] args 0 _ vA hrun hwf hs
+    (fun w _ hsl x hl => patch_get_slot slots o vA w.id x hsl hl)
+  have hrw := C04.read_write_args ext as ws rs (patchObj slots o vA) args ((out.drop hd).take (lenN fs))
+    ((out.drop hd).drop (lenN fs)) vA hc (hassume _ vA hO hag) hemit (by
+      intro hu
+      rw [List.drop_drop, List.drop_eq_nil_iff]
+      have := hr hu
+      omega)
+  rw [List.take_append_drop, List.drop_drop] at hrw
+  exact ⟨vA, hrw, hag, hkids⟩
+
+/-- the root table of a compiled value: `nested_read_write` at offset 0 of what `dump_table` returned -/
+theorem nested_read_write_root (ext : Ext) (as : List Assume) (ws : List WF) (rs : List RF) (o : Field.Obj)
+    (slots : Slots) (kids : Kids) (args : View) (ty : TType) (fs : Fields) (vN : View)
+    (ids : Nat → Nat) (hinj : Function.Injective ids) (fresh : List Nat) (hnd : fresh.Nodup) (hfr : ∀ j, ids j ∉ fresh)
+    (out : List Nat)
+    (hc : compatU as ws rs = true) (hs : slotOK slots ws = true)
+    (he : emitN ext o slots kids ws args = some (fs, vN))
+    (hext : ∀ O' : Field.Obj, (∀ f, slotW slots f = none → O'.get f = o.get f) → ∀ k, ext k O' = ext k o)
+    (hassume : ∀ (O' : Field.Obj) (view' : View), (∀ f, slotW slots f = none → O'.get f = o.get f) →
+      AgreeOff slots vN view' → ∀ x ∈ as, x.holds O' view')
+    (hok : (⟨ty, fs⟩ : Table).Ok)
+    (hr : usesRest rs = true → lenN fs = out.length)
+    (h : dumpTable ids ⟨ty, fs⟩ fresh = some (some out)) :
+    ∃ view', parse rs args out = some (view', out.drop (lenN fs)) ∧ AgreeOff slots vN view' ∧
+      KidsAt slots kids out 0 ws view' := by
+  have hat := compile_places_nested ids hinj ⟨ty, fs⟩ hok fresh hnd hfr out h
+  have hsimple := emitN_simple ext o slots kids ws args fs vN he hs
+  have hsmall : lenN fs < U32 := by
+    have := hok.1
+    simp only [] at this
+    rw [flat_simple fs 0 hsimple] at this
+    exact this
+  have := nested_read_write ext as ws rs o slots kids args out 0 fs vN hc hs he hext hassume hat hsmall
+    (by intro hu; rw [Nat.zero_add]; exact hr hu)
+  simpa using this
+
+/-- the offset fields of `Gdef` (write-fonts generated_gdef.rs): glyph class def, attach list, lig caret list, mark attach
+class def (16-bit), mark glyph sets (16-bit, version ≥ 1.2), item variation store (32-bit, version ≥ 1.3) -/
+def gdefSlots : Slots := [(1, 2), (2, 2), (3, 2), (4, 2), (5, 2), (6, 4)]
+
+open FontVerif.Gen.WriteProgs in
+/-- instance: the generated `Gdef` pair with all six offsets real -/
+theorem gdef_nested_read_write (ext : Ext) (o : Field.Obj) (kids : Kids) (out : List Nat) (hd : Nat) (fs : Fields)
+    (vN : View)
+    (he : emitN ext o gdefSlots kids gdef_Gdef_w [] = some (fs, vN))
+    (hext : ∀ O' : Field.Obj, (∀ f, slotW gdefSlots f = none → O'.get f = o.get f) → ∀ k, ext k O' = ext k o)
+    (hat : TableAt out hd fs 0) (hsmall : lenN fs < U32) :
+    ∃ view', parse gdef_Gdef_r [] (out.drop hd) = some (view', out.drop (hd + lenN fs)) ∧
+      AgreeOff gdefSlots vN view' ∧ KidsAt gdefSlots kids out hd gdef_Gdef_w view' :=
+  nested_read_write ext [] _ _ o gdefSlots kids [] out hd fs vN gdef_Gdef_compat (by decide) he hext
+    (fun _ _ _ _ x hx => by cases hx) hat hsmall (fun h => absurd h (by decide))
+
+/-- non-vacuity: a GDEF 1.0 with a glyph class def `[0,1,0,5,0,0]` and a lig caret list `[0,2,0,0]`, the other two
+offsets null; `compute_version` = 1.0.  The nested writer produces the value tree, the pipeline compiles it, and the
+generated reader finds the children where the offsets say. -/
+example :
+    emitN (fun _ _ => 65536) [] gdefSlots
+        (fun f => if f = 1 then some (.other, .bytes [0, 1, 0, 5, 0, 0] .nil)
+                  else if f = 3 then some (.other, .bytes [0, 2, 0, 0] .nil) else none)
+        FontVerif.Gen.WriteProgs.gdef_Gdef_w []
+      = some (.bytes [0, 1, 0, 0] (.link 2 .other (.bytes [0, 1, 0, 5, 0, 0] .nil) (.null 2
+          (.link 2 .other (.bytes [0, 2, 0, 0] .nil) (.null 2 .nil)))),
+        [(6, .absent), (5, .absent), (4, .num 0), (3, .num 65535), (2, .num 0), (1, .num 65535), (0, .num 65536)]) ∧
+    dumpTable id ⟨.other, .bytes [0, 1, 0, 0] (.link 2 .other (.bytes [0, 1, 0, 5, 0, 0] .nil) (.null 2
+          (.link 2 .other (.bytes [0, 2, 0, 0] .nil) (.null 2 .nil))))⟩ []
+      = some (some [0, 1, 0, 0, 0, 12, 0, 0, 0, 18, 0, 0, 0, 1, 0, 5, 0, 0, 0, 2, 0, 0]) ∧
+    parse FontVerif.Gen.WriteProgs.gdef_Gdef_r [] [0, 1, 0, 0, 0, 12, 0, 0, 0, 18, 0, 0, 0, 1, 0, 5, 0, 0, 0, 2, 0, 0]
+      = some ([(6, .absent), (5, .absent), (4, .num 0), (3, .num 18), (2, .num 0), (1, .num 12), (0, .num 65536)],
+          [0, 1, 0, 5, 0, 0, 0, 2, 0, 0]) := by
+  refine ⟨by decide +kernel, by decide +kernel, by decide +kernel⟩
+
+/-- non-vacuity of the theorem itself: every hypothesis of `nested_read_write_root` holds for that GDEF, so the theorem
+yields the read-back (here only its shape is kept) -/
+example :
+    ∃ view', parse FontVerif.Gen.WriteProgs.gdef_Gdef_r []
+        [0, 1, 0, 0, 0, 12, 0, 0, 0, 18, 0, 0, 0, 1, 0, 5, 0, 0, 0, 2, 0, 0] = some (view',
+          List.drop 12 [0, 1, 0, 0, 0, 12, 0, 0, 0, 18, 0, 0, 0, 1, 0, 5, 0, 0, 0, 2, 0, 0]) := by
+  obtain ⟨view', h, _, _⟩ := nested_read_write_root (fun _ _ => 65536) [] FontVerif.Gen.WriteProgs.gdef_Gdef_w
+    FontVerif.Gen.WriteProgs.gdef_Gdef_r [] gdefSlots
+    (fun f => if f = 1 then some (.other, .bytes [0, 1, 0, 5, 0, 0] .nil)
+              else if f = 3 then some (.other, .bytes [0, 2, 0, 0] .nil) else none)
+    [] .other
+    (.bytes [0, 1, 0, 0] (.link 2 .other (.bytes [0, 1, 0, 5, 0, 0] .nil) (.null 2
+      (.link 2 .other (.bytes [0, 2, 0, 0] .nil) (.null 2 .nil)))))
+    [(6, .absent), (5, .absent), (4, .num 0), (3, .num 65535), (2, .num 0), (1, .num 65535), (0, .num 65536)]
+    id (fun _ _ h => h) [] List.nodup_nil (fun _ h => by cases h)
+    [0, 1, 0, 0, 0, 12, 0, 0, 0, 18, 0, 0, 0, 1, 0, 5, 0, 0, 0, 2, 0, 0]
+    FontVerif.Gen.WriteProgs.gdef_Gdef_compat (by decide) (by decide +kernel) (fun _ _ _ => rfl)
+    (fun _ _ _ _ x hx => by cases hx) (by simp [Table.Ok, Fields.Ok, TableWriter.flat, U32])
+    (fun h => absurd h (by decide)) (by decide +kernel)
+  exact ⟨view', h⟩
+
+end dsl
 
 end FontVerif.C04C05
